@@ -30,6 +30,9 @@ fn accepted(ev: Ev) -> bool {
 
 impl St {
 	fn deliver(&mut self, t: u64, gated: bool) {
+		if !matches!(self.phase, Phase::Collecting { .. }) {
+			return;
+		}
 		if let Phase::Collecting { batch, .. } = std::mem::replace(&mut self.phase, Phase::Idle) {
 			let mut b = batch;
 			b.sort_unstable();
@@ -76,7 +79,27 @@ fn drain(st: St, t: u64, thr: u64, gated: bool, acc: &mut Vec<St>) {
 	for c in cands {
 		let mut s = st.clone();
 		let (id, ev) = s.queue.remove(c);
+		if thr == 0 && accepted(ev) && !ev.urgent() {
+			// zero window: the property fixes no grouping for events that are already
+			// waiting when the window (of length zero) closes — they may each be a batch
+			// of their own (today's code) or ride along with the batch being closed; the
+			// batch is closed at this instant either way (see the end of the drain below)
+			let mut s2 = s.clone();
+			match &mut s2.phase {
+				Phase::Idle => s2.phase = Phase::Collecting { t0: t, batch: vec![id] },
+				Phase::Collecting { batch, .. } => batch.push(id),
+				Phase::Busy => unreachable!(),
+			}
+			if s2.queue.is_empty() {
+				s2.deliver(t, gated);
+			}
+			drain(s2, t, thr, gated, acc);
+		}
 		s.arrive(id, ev, t, thr, gated);
+		if thr == 0 && s.queue.is_empty() && matches!(s.phase, Phase::Collecting { .. }) {
+			// nothing left to ride along: an open zero-length window closes now
+			s.deliver(t, gated);
+		}
 		drain(s, t, thr, gated, acc);
 	}
 }
